@@ -1091,6 +1091,10 @@ def resolve_names(M, table, what):
     res = collections.OrderedDict(); groups = collections.OrderedDict()
     for alias, rx in table.items():
         hits = [n for n in M.funcs if re.search(rx, M.dem[n])]
+        if alias.endswith('?'):          # optional: zero or one definition (e.g. an overload that only a modified tree instantiates)
+            if len(hits) > 1: raise ExtractionError('%s %s: optional regex %r matches %d definitions' % (what, alias, rx, len(hits)))
+            if hits: res[alias[:-1]] = hits[0]
+            continue
         if alias.endswith('*'):
             if not hits: raise ExtractionError('%s %s: regex %r matches no definition' % (what, alias, rx))
             groups[alias[:-1]] = []
@@ -1167,6 +1171,7 @@ def translate(M, roots, stubs=None, rt1='verif_rt.h', rt2='verif_rt2.h'):
     for a, n in list(rn.items()) + list(sn.items()):
         f = M.funcs[n]
         sig.append('#define %s %s' % (a, san(n)))
+        sig.append('#define HAVE_%s 1' % a)
         if not isinstance(f.rty, Void): sig.append('typedef %s %s_ret;' % (E.cty(f.rty), a))
         for i, (t, nm, attrs) in enumerate(f.params): sig.append('typedef %s %s_a%d;' % (E.cty(t), a, i))
     o = ['#include <stdint.h>\n#include <stddef.h>\n#include "%s"\n' % rt1]
